@@ -241,6 +241,37 @@ def h_path(ctx, kind, error, sign, nmax):
     _claims(ctx, kind, curves, n, arc, start, end, cx, cy, a, b, co, si, t0, sweep, controls=(n <= 2))
 
 
+def h_path_two(ctx, kind, sign):
+    """two arcs in one path: both are converted, wherever they stand"""
+    S, cx, cy, a, b, co, si, t0 = _mk_arc(ctx, rot=False)
+    step = TAU * 0.1
+    sweep = _sweep(ctx, sign, 0.001, 3 * step - 1e-6)
+    start = _E(ctx, cx, cy, a, b, co, si, t0)
+    end = _E(ctx, cx, cy, a, b, co, si, t0 + sweep)
+    arc1 = S.Arc(S.Point(*start), S.Point(*end), S.Point(cx, cy), S.Point(cx + a * co, cy + a * si), S.Point(cx - b * si, cy + b * co), sweep)
+    arc2 = S.Arc(S.Point(50, 0), S.Point(0, 50), S.Point(0, 0), S.Point(50, 0), S.Point(0, 50), TAU / 4)      # concrete quarter circle: 3 slices of 30 degrees
+    # the second arc is the last segment: whatever the first one expands to must not push it out of reach
+    p = S.Path(S.Move(S.Point(*start)), arc1, S.Line(S.Point(*end), S.Point(50, 0)), arc2)
+    ctx.claim("path built as given", len(p) == 4 and isinstance(p[1], S.Arc) and isinstance(p[3], S.Arc))
+    if ctx.mode != "concrete":
+        orig = S.Arc.get_start_t
+        S.Arc.get_start_t = lambda self: (t0 if self is p[1] else 0.0)
+    ctx.option("ceil_range", (0, 3))
+    try:
+        (p.approximate_arcs_with_cubics if kind == "cubic" else p.approximate_arcs_with_quads)()
+    finally:
+        if ctx.mode != "concrete":
+            S.Arc.get_start_t = orig
+    ctx.claim("two arcs: none is left", not any(isinstance(sg, S.Arc) for sg in p))
+    n1 = len(p) - 2 - 3
+    w = sweep if sign > 0 else 0 - sweep
+    lim = ctx.num(Fraction(TAU * 0.1))
+    ctx.claim("two arcs: first arc in slices of at most tau * error, second in three", ctx.and_(ctx.le(w, n1 * lim), ctx.gt(w, (n1 - 1) * lim)))
+    for i in range(1, len(p)):
+        ctx.claim_points_eq("two arcs: connected", p[i].start, p[i - 1].end)
+    ctx.claim_points_eq("two arcs: the line between them keeps its end", p[1 + max(n1, 0)].end, (50, 0))
+
+
 def h_twin(ctx):
     """WRONG on purpose: claims the quadratic kernel is as accurate as the cubic"""
     S = ctx.S
@@ -286,5 +317,7 @@ def harnesses(tier):
                 hs.append(dict(common, name="path/%s/%s/%+d" % (kind, error, sign), fn="h_path", params={"kind": kind, "error": error, "sign": sign, "nmax": nmax},
                                budget_s=150 if not th else 1500, weight=8))
         hs.append(dict(common, name="zero/%s" % kind, fn="h_zero", params={"kind": kind}))
+        for sign in (1, -1):
+            hs.append(dict(common, name="path_two/%s/%+d" % (kind, sign), fn="h_path_two", params={"kind": kind, "sign": sign}, budget_s=100))
     hs.append(dict(common, name="twin/quad_as_good_as_cubic", fn="h_twin", twin=True, budget_s=60))
     return hs
